@@ -10,7 +10,8 @@
 (* INPUT.  c.pts is the sequence of input points (vertices of the mesh, at  *)
 (* most 16), integer coordinates in 0..3, c.dim in {2, 3}.  The implementation was   *)
 (* handed  q = (p + off) * sc  (c.off an integer vector, 0 or +-10^4 per   *)
-(* axis; c.sc in {1, 2^10}): every such q is an exact double, and so is    *)
+(* axis; sc = 2^c.sce, in the base families 1 or 2^10; see MAGNITUDES      *)
+(* below): every such q is an exact double, and so is                      *)
 (* the way back  p = q / sc - off.  Translation and scaling by a positive  *)
 (* factor commute with everything stated below (hull combinatorics,        *)
 (* containment, minimal ball, rigid box frame), so the harness maps every  *)
@@ -75,6 +76,33 @@
 (* Hull clauses as above except the separate extreme-point                 *)
 (* clause (for a closed convex surface through input points that contains  *)
 (* every input it is implied).                                             *)
+(*                                                                         *)
+(* MAGNITUDES and SHAPES (audit extension).  The implementation is handed  *)
+(*   q[a] = (p[a] + off[a]) * 2^sce[a]                                     *)
+(* with integer off (|off| <= 2^30) and integer exponents sce (one per     *)
+(* axis, -30..70): again every q is an exact double and the harness maps   *)
+(* results back exactly.  Equal exponents on all axes ("widely scaled":    *)
+(* 2^-26 .. 2^60, "translated far": 2^20 .. 2^30 lattice steps) leave      *)
+(* every clause below unchanged.  Different exponents per axis (flat-ish   *)
+(* and needle-like sets, aspect down to 2^-24) are an affine map: hull     *)
+(* combinatorics / sidedness and the axis-aligned box are invariant, so    *)
+(* kinds hull and aabb are judged as before; the oriented box of such a    *)
+(* set is judged in the normalised form "obbn" (below); sphere and         *)
+(* cylinder are not judged there.                                          *)
+(*  hull (o.raw)  convex_hull(repair=False) promises no winding: only      *)
+(*          vertices, watertightness, every input on ONE side of every     *)
+(*          face plane and the extreme points are demanded.                *)
+(*  hullb   larger sets (up to 64 points of {0..7}^3): as hull without the *)
+(*          separate extreme-point clause (implied, as for hullw).         *)
+(*  ballc   larger sets: containment in the reported ball (fixed point,    *)
+(*          slack o.eps) and some input within 2 eps of its boundary.      *)
+(*  obbn    apply_obb on a set with different exponents per axis: W as for *)
+(*          obb (rigid, no reflection); u[k][a] = round(10^6 * moved       *)
+(*          vertex k, axis a / (reported extent a / 2)): every |u| <=      *)
+(*          10^6 + 100 and the moved set centred (|min + max| <= 200).     *)
+(*  obb / cyl records may carry o.eps (slack in fixed-point units, 10 when *)
+(*  absent in spirit: 10 for {0..3}^3, 25 for {0..7}^3 where the rounding  *)
+(*  of W alone costs 0.5 * 7 * 3 units).                                   *)
 (*                                                                         *)
 (* FIXED-POINT part (the weakest checks; values are round(x * 10^4)):      *)
 (*  obb     W (rotation rows) and t of the matrix taking input coordinates *)
@@ -166,7 +194,7 @@ Spans2(P) == \E a \in 1..Len(P) : \E b \in (a+1)..Len(P) : \E c \in (b+1)..Len(P
 
 \* ------------------------------------------------------------ hull of a recorded mesh
 \* o.hv, o.hf as described in the header; P the (lifted) inputs
-HullClause(P, o) ==
+HullGeneral(P, o, raw, extreme) ==
     LET hv == o.hv  F == o.hf
         nV == Len(hv)
         V == [k \in 1..nV |-> IF hv[k] >= 0 /\ hv[k] < Len(P) THEN P[hv[k] + 1] ELSE <<0, 0, 0>>]
@@ -182,16 +210,19 @@ HullClause(P, o) ==
     ELSE IF \E k \in 1..nV : hv[k] < 0 \/ hv[k] >= Len(P) THEN "hull_vertex_is_not_an_input_point"
     ELSE IF \E f \in 1..Len(F) : \E j \in 1..3 : F[f][j] < 0 \/ F[f][j] >= nV THEN "hull_face_index_out_of_range"
     ELSE IF ~Watertight(S) THEN "hull_not_watertight"
-    ELSE IF ~WindingConsistent(E, S) THEN "hull_winding_inconsistent"
-    ELSE IF \E f \in 1..Len(F) : pos(f) # {} /\ neg(f) = {} THEN "hull_face_wound_inward"
-    ELSE IF \E f \in 1..Len(F) : pos(f) # {} THEN "hull_not_convex_input_outside_face_plane"
-    ELSE IF \E k \in 1..Len(P) : k \notin onhull /\ (\A j \in onhull : P[j] # P[k]) /\ Extreme(P, k)
+    ELSE IF raw /\ \E f \in 1..Len(F) : pos(f) # {} /\ neg(f) # {} THEN "hull_not_convex_inputs_on_both_sides"
+    ELSE IF ~raw /\ ~WindingConsistent(E, S) THEN "hull_winding_inconsistent"
+    ELSE IF ~raw /\ \E f \in 1..Len(F) : pos(f) # {} /\ neg(f) = {} THEN "hull_face_wound_inward"
+    ELSE IF ~raw /\ \E f \in 1..Len(F) : pos(f) # {} THEN "hull_not_convex_input_outside_face_plane"
+    ELSE IF extreme /\ \E k \in 1..Len(P) : k \notin onhull /\ (\A j \in onhull : P[j] # P[k]) /\ Extreme(P, k)
          THEN "hull_misses_an_extreme_input_point"
     ELSE IF ~o.wt THEN "hull_reports_is_watertight_false"
-    ELSE IF ~o.wc THEN "hull_reports_is_winding_consistent_false"
-    ELSE IF ~o.volpos THEN "hull_reports_volume_not_positive"
-    ELSE IF ~o.cvx THEN "hull_reports_is_convex_false"
+    ELSE IF ~raw /\ ~o.wc THEN "hull_reports_is_winding_consistent_false"
+    ELSE IF ~raw /\ ~o.volpos THEN "hull_reports_volume_not_positive"
+    ELSE IF ~raw /\ ~o.cvx THEN "hull_reports_is_convex_false"
     ELSE "ok"
+HullClause(P, o) == HullGeneral(P, o, o.raw, TRUE)
+HullBigClause(P, o) == HullGeneral(P, o, FALSE, FALSE)
 
 \* ------------------------------------------------------------ wide inputs: polynomials in L
 \* a polynomial a0 + a1 L + a2 L^2 + a3 L^3 is <<a0, a1, a2, a3>>
@@ -401,27 +432,51 @@ Transform(W, t, p) == <<Dot(Row3(W, 1), p) + t[1], Dot(Row3(W, 2), p) + t[2], Do
 MinOf(S) == CHOOSE m \in S : \A x \in S : m <= x
 MaxOf(S) == CHOOSE m \in S : \A x \in S : m >= x
 
+\* e = containment slack of the record (fixed-point units): EPS for {0..3}^3, larger for {0..7}^3
 ObbObs(P, o) ==
-    LET W == LiftM(o.W)  t == Lift(o.t)  ext == Lift(o.ext)
+    LET W == LiftM(o.W)  t == Lift(o.t)  ext == Lift(o.ext)  e == o.eps
         TV == [k \in 1..Len(P) |-> Transform(W, t, P[k])]
         ax(a) == {TV[k][a] : k \in 1..Len(P)} IN
     IF ~Orthonormal(W) THEN "obb_transform_not_orthonormal"
     ELSE IF ~DetPositive(W) THEN "obb_transform_is_a_reflection"
-    ELSE IF o.hasnew /\ \E k \in 1..Len(P) : \E a \in 1..3 : Abs(Lift(o.newv[k])[a] - TV[k][a]) > EPS
+    ELSE IF o.hasnew /\ \E k \in 1..Len(P) : \E a \in 1..3 : Abs(Lift(o.newv[k])[a] - TV[k][a]) > e
          THEN "apply_obb_vertices_not_moved_by_its_matrix"
-    ELSE IF \E k \in 1..Len(P) : \E a \in 1..3 : 2 * Abs(TV[k][a]) > ext[a] + 2 * EPS
+    ELSE IF \E k \in 1..Len(P) : \E a \in 1..3 : 2 * Abs(TV[k][a]) > ext[a] + 2 * e
          THEN "obb_input_outside_box_of_reported_extents"
-    ELSE IF \E a \in 1..3 : Abs(MinOf(ax(a)) + MaxOf(ax(a))) > 2 * EPS THEN "obb_box_not_centred_at_origin"
+    ELSE IF \E a \in 1..3 : Abs(MinOf(ax(a)) + MaxOf(ax(a))) > 2 * e THEN "obb_box_not_centred_at_origin"
+    ELSE "ok"
+
+\* normalised form for sets scaled differently per axis: u = 10^6 * moved vertex / half extent
+UN == 1000000
+UEPS == 100
+ObbNormObs(P, o) ==
+    LET W == o.W  u == o.u
+        ax(a) == {u[k][a] : k \in 1..Len(u)} IN
+    IF ~Orthonormal(W) THEN "obb_transform_not_orthonormal"
+    ELSE IF ~DetPositive(W) THEN "obb_transform_is_a_reflection"
+    ELSE IF Len(u) # Len(P) THEN "apply_obb_changed_the_number_of_vertices"
+    ELSE IF \E k \in 1..Len(u) : \E a \in 1..3 : Abs(u[k][a]) > UN + UEPS
+         THEN "obb_input_outside_box_of_reported_extents"
+    ELSE IF \E a \in 1..3 : Abs(MinOf(ax(a)) + MaxOf(ax(a))) > 2 * UEPS THEN "obb_box_not_centred_at_origin"
     ELSE "ok"
 
 CylObs(P, o) ==
-    LET W == o.W  t == o.t
+    LET W == o.W  t == o.t  e == o.eps
         TV == [k \in 1..Len(P) |-> Transform(W, t, P[k])] IN
     IF ~Orthonormal(W) THEN "cylinder_transform_not_orthonormal"
     ELSE IF ~DetPositive(W) THEN "cylinder_transform_is_a_reflection"
     ELSE IF o.r < 0 \/ o.h < 0 THEN "cylinder_negative_size"
-    ELSE IF \E k \in 1..Len(P) : ~Within(<<TV[k][1], TV[k][2], 0>>, o.r + EPS) THEN "cylinder_input_beyond_radius"
-    ELSE IF \E k \in 1..Len(P) : 2 * Abs(TV[k][3]) > o.h + 2 * EPS THEN "cylinder_input_beyond_half_height"
+    ELSE IF \E k \in 1..Len(P) : ~Within(<<TV[k][1], TV[k][2], 0>>, o.r + e) THEN "cylinder_input_beyond_radius"
+    ELSE IF \E k \in 1..Len(P) : 2 * Abs(TV[k][3]) > o.h + 2 * e THEN "cylinder_input_beyond_half_height"
+    ELSE "ok"
+
+\* larger sets: containment in the reported ball and tightness (some input near its boundary), fixed point
+BallObs(P, o) ==
+    LET C == Lift(o.C)  R == o.R  e == o.eps
+        df(k) == Sub(Scale(K, P[k]), C) IN
+    IF R < 0 THEN "sphere_negative_radius"
+    ELSE IF \E k \in 1..Len(P) : ~Within(df(k), R + e) THEN "sphere_does_not_contain_an_input_fx"
+    ELSE IF R > 4 * e /\ \A k \in 1..Len(P) : Within(df(k), R - 4 * e) THEN "sphere_touches_no_input_fx"
     ELSE "ok"
 
 Prefixed(obs, F(_)) == FirstBad([k \in 1..Len(obs) |-> LET x == F(obs[k]) IN
@@ -432,6 +487,9 @@ Clause(c) ==
     LET P == IF c.kind = "hullw" THEN c.pts ELSE LiftAll(c.pts) IN
     CASE c.kind = "hull" -> Prefixed(c.obs, LAMBDA o : HullClause(P, o))
       [] c.kind = "hullw" -> Prefixed(c.obs, LAMBDA o : WideHullClause(P, o))
+      [] c.kind = "hullb" -> Prefixed(c.obs, LAMBDA o : HullBigClause(P, o))
+      [] c.kind = "obbn" -> Prefixed(c.obs, LAMBDA o : ObbNormObs(P, o))
+      [] c.kind = "ballc" -> Prefixed(c.obs, LAMBDA o : BallObs(P, o))
       [] c.kind = "aabb" -> Prefixed(c.obs, LAMBDA o : AabbClause(c.pts, c.dim, o))
       [] c.kind = "sphere" -> SphereClause(P, c.dim, c.obs)
       [] c.kind = "obb" -> Prefixed(c.obs, LAMBDA o : ObbObs(P, o))
@@ -446,14 +504,19 @@ Report == LET c == Cases[i]  cl == IF c.exc # "" THEN "raised_" \o c.exc ELSE Cl
 \* the inputs satisfy the hypothesis of the property (a failure is a defect of the harness)
 InputSane ==
     LET c == Cases[i] IN
-    /\ c.sc \in {1, 2, 4, 1024, 2048, 4096} /\ \A a \in 1..c.dim : c.off[a] \in -20000..20000
+    /\ Len(c.sce) = c.dim /\ Len(c.off) = c.dim
+    /\ \A a \in 1..c.dim : c.sce[a] \in -30..70 /\ c.off[a] \in -1073741824..1073741824
+    \* kinds that are only invariant under a common scale need equal exponents
+    /\ c.kind \in {"obb", "sphere", "cyl", "ballc"} => \A a \in 1..c.dim : c.sce[a] = c.sce[1]
+    /\ c.kind \in {"obb", "cyl", "ballc"} => \A k \in 1..Len(c.obs) : c.obs[k].eps = (IF c.grid = 3 THEN EPS ELSE 25)
+    /\ c.grid \in {3, 7} /\ (c.grid = 7 => c.kind \in {"hullb", "aabb", "obb", "cyl", "ballc"} /\ c.dim = 3)
     /\ IF c.kind = "hullw" THEN
            /\ c.dim = 3 /\ c.L = 100000 /\ Len(c.pts) >= 4 /\ Len(c.pts) <= 32
            /\ \A k \in 1..Len(c.pts) : \A a \in 1..3 : c.pts[k][1][a] \in 0..2 /\ c.pts[k][2][a] \in 0..3
            /\ WSpans3(c.pts)
        ELSE LET P == LiftAll(c.pts) IN
-           /\ c.dim \in {2, 3} /\ Len(c.pts) >= c.dim + 1 /\ Len(c.pts) <= 16
-           /\ \A k \in 1..Len(c.pts) : Len(c.pts[k]) = c.dim /\ \A a \in 1..c.dim : c.pts[k][a] \in 0..3
+           /\ c.dim \in {2, 3} /\ Len(c.pts) >= c.dim + 1 /\ Len(c.pts) <= (IF c.grid = 7 THEN 64 ELSE 16)
+           /\ \A k \in 1..Len(c.pts) : Len(c.pts[k]) = c.dim /\ \A a \in 1..c.dim : c.pts[k][a] \in 0..c.grid
            /\ IF c.dim = 3 THEN Spans3(P) ELSE Spans2(P)
 
 \* laws of the reference itself on the recorded inputs flagged c.sane (never a finding about trimesh)
